@@ -177,6 +177,10 @@ def validate(wd, name, trace, devs, timeout=None):
                    postcondition="TraceAccepted")
     r = run_tlc("Trace_Tree", cfg, wd, name, workers=1, timeout=timeout, dfs=True, heap="3g",
                 env_extra={"TRACE": trace})
+    for attempt in range(2):
+        # a JVM that could not get memory or a thread while a dozen others were running is not a verdict: run it again
+        if r.error and "unexpected exception" in r.error and not r.violated and "TRACE-REJECTED" not in open(r.out, errors="replace").read():
+            r = run_tlc("Trace_Tree", cfg, wd, f"{name}.again{attempt}", workers=1, timeout=timeout, dfs=True, heap="3g", env_extra={"TRACE": trace})
     nlines = sum(1 for _ in open(trace))
     info = {"accepted": False, "matched": None, "lines": nlines, "violated": r.violated, "error": r.error,
             "states": r.distinct, "generated": r.generated}
